@@ -45,8 +45,18 @@ class Facts:
         if not a or not a['variants']:
             return out
         crate = adt.split('::')[0]
-        for fd in a['variants'][0]['fields']:
+        todo = list(a['variants'][0]['fields'])
+        seen_adts = {adt}
+        while todo:
+            fd = todo.pop(0)
             ty = self.types.get((crate, fd['ty']), {})
+            # a struct that is not one of the reviewed tree's types and merely groups fields (`progress: RunProgress { chunk_index, .. }`):
+            # its fields count as fields of the outer struct, by their own roles
+            inner = self.adts.get(ty.get('adt') or '')
+            if inner and len(inner['variants']) == 1 and inner['variants'][0]['fields'] and ty['adt'] not in seen_adts and \
+                    ty['adt'].startswith(crate + '::') and ty['adt'] not in _known_types():
+                seen_adts.add(ty['adt'])
+                todo.extend(inner['variants'][0]['fields'])
             if ty.get('k') == 'param':
                 out['param'].append(fd['n'])
             elif ty.get('adt'):
@@ -84,6 +94,11 @@ class Facts:
             if old in text and ('{impl#' in old or '{closure#' in old):
                 text = text.replace(old, new)
         return re.sub(r'\{closure#\d+\}', '{closure}', text)
+
+
+def _known_types():
+    from .known_private import KNOWN_TYPES
+    return KNOWN_TYPES
 
 
 def _rule_sources():
